@@ -7,7 +7,7 @@ ROOT = os.path.dirname(os.path.abspath(__file__))
 TB = ["TLC 1.8.0 + CommunityModules Json/IOUtils", "harness projection functions (harness/src)", "small-scope: names i32, integer weights"]
 
 MUT_NOTE = "Bounded: 2-5 names, weights {NaN,1,2,3,5}, attribute tags; projection through the public API (+ the read-only snapshot hook). Trusted: TLC, Json module, harness projection/canonicalisation."
-ALG_NOTE = "Small scope: all graphs of the enumerated families (<= 4-5 nodes) plus random graphs of all 8 kinds; floats are mapped to small rationals (tolerance 1e-11) before the exact comparison. Trusted: TLC, Json module, harness canonicalisation, rational reconstruction."
+ALG_NOTE = "Small scope: all graphs of the enumerated families (<= 4-5 nodes) plus random graphs of all 8 kinds; floats are mapped to small rationals (absolute tolerance 4e-11, denominators <= 100000) before the exact comparison. Trusted: TLC, Json module, harness canonicalisation, rational reconstruction."
 
 CHECKS = {
     "C01": dict(
